@@ -756,7 +756,9 @@ def eval_sys_read(klong):
         return None
     else:
         i,a = kg_read_array(r, 0, klong._backend, data=True, module=klong.current_module(), read_neg=True)
-        f.raw.seek(k+i,0)
+        # tell() counts bytes, i counts characters: position after the object by its encoded length
+        enc = getattr(f.raw, 'encoding', None)
+        f.raw.seek(k + (len(r[:i].encode(enc)) if enc else i), 0)
         return a
 
 
